@@ -11,7 +11,8 @@
     stored.  It follows from "the context-creating transactions of the history have pairwise
     distinct hashes" ([fresh_history_from_distinct_hashes], Props/C08.v). *)
 From Irismod Require Import Service.Model Service.Proofs Service.ProofsHist Service.ProofsEscrow
-  Service.ProofsSched Service.ProofsBatch Service.ProofsLiab Service.ProofsTally Service.ProofsModule.
+  Service.ProofsSched Service.ProofsBatch Service.ProofsLiab Service.ProofsTally Service.ProofsLive Service.ProofsModule Service.ProofsFresh
+  Service.ProofsCallback Service.ProofsSchedule Service.ProofsModuleHist.
 
 (** Over EVERY history (any list of steps: messages of any kind and content, valid or not, block
     ends with expiry, slashing, refunds and new batches, rate changes, transfers, module
@@ -112,8 +113,9 @@ Theorem slash_amount :
 Proof. exact slash_amount_lemma. Qed.
 Print Assumptions slash_amount.
 
-(** Over EVERY history in which context ids are fresh (see the header), for every parameter
-    set, from any initial height, time and ledger with empty escrows: in every denom the
+(** Over EVERY history whose context-creating transactions have pairwise distinct hashes
+    ([create_txhs]; context ids are then fresh, ProofsFresh.v), for every parameter set — WITH or
+    without a module-served service —, from any initial height, time and ledger with empty escrows: in every denom the
     balance of the request escrow equals the fees of the requests still awaiting a response
     plus the earned fees not yet withdrawn ([liab d s]).  The proof carries the scheduling
     invariant (a batch is only started when the previous one is closed, CleanBatch only ever
@@ -121,12 +123,11 @@ Print Assumptions slash_amount.
     outstanding, queue entries and height markers agree) through both end-block handlers. *)
 Theorem request_escrow_eq_liabilities :
   forall c steps h0 t0 l0,
-    c_msvc c < 0 ->
     (forall d, bal l0 REQ d = 0) -> bal l0 DEP BASE = 0 ->
-    fresh_history c (init h0 t0 l0) steps ->
+    NoDup (create_txhs steps) ->
     let s := run c (init h0 t0 l0) steps in
     forall d, bal (led s) REQ d = liab d s.
-Proof. exact request_escrow_eq_liabilities_lemma. Qed.
+Proof. exact request_escrow_eq_liabilities_m_lemma. Qed.
 Print Assumptions request_escrow_eq_liabilities.
 
 (** Over EVERY history (no hypothesis at all), for every owner [o] and denom [d]: the owner-side
@@ -148,9 +149,10 @@ Print Assumptions provider_owner_tallies_agree.
     request is stored answered, inactive, addressed to the module's provider.  FALSE on the code
     before the fix "service module-service request charges the consumer the fee its request
     records" (the undiscounted price, or nothing at all, was deducted).
-    [request_escrow_eq_liabilities] and the C08 history theorems are stated for chains without a
-    module-served service ([c_msvc c < 0]); [deposit_escrow_eq_bindings] and
-    [provider_owner_tallies_agree] hold with one as well. *)
+    The history theorems ([request_escrow_eq_liabilities], [deposit_escrow_eq_bindings],
+    [provider_owner_tallies_agree]) hold on chains with a module-served service as well: every
+    other step behaves as on the chain without one ([apply_no_msvc]) and the module-served call
+    preserves the invariants (ProofsModuleHist.v). *)
 Theorem module_call_charged_the_recorded_fee :
   forall c s txh svc provs cons inok capd capa timeout rep freq total s',
     call_module c s txh svc provs cons inok capd capa timeout rep freq total = Okk s' ->
@@ -228,9 +230,7 @@ Example c07_tallies_nonvacuous :
   getz (0, BASE) (oearned s) = 48 /\ osum s 0 BASE = 48 /\ getz (2, BASE) (earned s) = 48.
 Proof. vm_compute. repeat split; reflexivity. Qed.
 
-Example c07_fresh_history_satisfiable :
-  fresh_history ex_cfg (init 1 1000 ex_l0) ex_hist.
-Proof. apply fresh_historyb_ok. vm_compute. reflexivity. Qed.
+
 
 (** a module-served service ("2", provider 4, price 100 at half price until t = 2000, bound by the
     module itself): the call charges 50, the provider earns 50 - tax 2 at once *)
@@ -249,3 +249,7 @@ Example c07_module_call_nonvacuous :
   /\ bal (led s) 5 BASE = 1000000 - 50 /\ bal (led s) REQ BASE = 48 /\ liab BASE s = 48
   /\ getz (4, BASE) (earned s) = 48 /\ bal (led s) DEP BASE = 1000 /\ dep_sum (binds s) = 1000.
 Proof. vm_compute. repeat split; try reflexivity; discriminate. Qed.
+
+Example c07_fresh_history_satisfiable :
+  fresh_history ex_cfg (init 1 1000 ex_l0) ex_hist /\ NoDup (create_txhs ex_hist) /\ NoDup (create_txhs ex_hist_m).
+Proof. split; [apply fresh_historyb_ok; vm_compute; reflexivity|]. split; vm_compute; repeat constructor; simpl; tauto. Qed.
